@@ -9,18 +9,52 @@ Open Scope N_scope.
 (* ---------------- SMTP / LMTP relay client: every script, every configuration, any number of
    requests on the connection, any number of recipients ---------------- *)
 
-(* A recipient is reported delivered only if MAIL, its RCPT and end-of-data (its own data reply
-   for LMTP) were answered 2xx and DATA 2xx/3xx.  Guard: the reply alphabet of the property
-   (no 3xx where the protocol defines none); its complement is the known finding
-   c11:3xx-at-rcpt-or-eod-counted-as-accepted. *)
-Theorem C11_success_sound_smtp_partial : forall sc cfg msgs m i,
-  no_r3 sc cfg m (N.of_nat i) ->
+(* envelope.recipients may hold the same address several times; the result mapping is keyed by
+   address.  own msg i j: positions i and j hold the same address. *)
+
+(* THE per-recipient statement: what the mapping holds for the address at position i is justified
+   by the replies to the occurrences of that same address and by the message replies only
+   (RJust: delivered / failed with the class of an error reply to an own occurrence), never by a
+   reply given to another address; the mapping has an entry for every position. *)
+Theorem C11_result_from_own_replies : forall sc cfg msgs m l i t,
+  lookup_res (results (run_client sc cfg msgs)) m = Some (MMap l) -> nth_error l i = Some t ->
+  exists msg, msg_at msgs m = Some msg /\ length l = length (m_rcpts msg) /\ RJust sc cfg m msg i t.
+Proof. exact smtp_result_from_own_replies. Qed.
+Print Assumptions C11_result_from_own_replies.
+
+Theorem C11_failed_own_class : forall sc cfg msgs m l i c,
+  lookup_res (results (run_client sc cfg msgs)) m = Some (MMap l) -> nth_error l i = Some (TFailed c) ->
+  exists msg j, msg_at msgs m = Some msg /\ own msg i j /\ occ_failed sc m j c.
+Proof. exact smtp_failed_own_class. Qed.
+Print Assumptions C11_failed_own_class.
+
+(* An address is reported delivered only if MAIL was answered 2xx, DATA 2xx/3xx and
+   SMTP: every RCPT given for it and end-of-data were answered 2xx;
+   LMTP: one RCPT given for it was answered 2xx and the data reply owned by that RCPT was 2xx.
+   Guard: the reply alphabet of the property (no 3xx where the protocol defines none, at the
+   occurrences of this address); its complement is the known finding
+   c11:3xx-at-rcpt-or-eod-counted-as-accepted.  No assumption about duplicate recipients. *)
+Theorem C11_success_sound_smtp_partial : forall sc cfg msgs m msg i,
+  msg_at msgs m = Some msg -> no_r3_own sc cfg m msg i ->
+  smtp_final sc cfg msgs m i = FDelivered ->
+  reply sc (Mail m) = R2 /\ (reply sc (Data m) = R2 \/ reply sc (Data m) = R3) /\
+  if c_lmtp cfg
+  then exists j, own msg i j /\ reply sc (Rcpt m (N.of_nat j)) = R2 /\ reply sc (Eod m (N.of_nat j)) = R2
+  else (forall j, own msg i j -> reply sc (Rcpt m (N.of_nat j)) = R2) /\ reply sc (Eod m 0) = R2.
+Proof. exact smtp_success_sound. Qed.
+Print Assumptions C11_success_sound_smtp_partial.
+
+(* pairwise distinct recipients: the statement about position i alone *)
+Theorem C11_success_sound_smtp_nodup : forall sc cfg msgs m msg i,
+  msg_at msgs m = Some msg -> NoDup (m_addrs msg) ->
+  reply sc (Mail m) <> R3 -> reply sc (Rcpt m (N.of_nat i)) <> R3 ->
+  reply sc (Eod m (eodix cfg (N.of_nat i))) <> R3 ->
   smtp_final sc cfg msgs m i = FDelivered ->
   reply sc (Mail m) = R2 /\ reply sc (Rcpt m (N.of_nat i)) = R2 /\
   (reply sc (Data m) = R2 \/ reply sc (Data m) = R3) /\
   reply sc (Eod m (eodix cfg (N.of_nat i))) = R2.
-Proof. exact smtp_success_sound. Qed.
-Print Assumptions C11_success_sound_smtp_partial.
+Proof. exact smtp_success_sound_nodup. Qed.
+Print Assumptions C11_success_sound_smtp_nodup.
 
 (* without the guard: a 3xx reply to end-of-data counts as acceptance (Reply.is_error) *)
 Theorem C11_success_sound_smtp_refuted :
@@ -29,12 +63,15 @@ Theorem C11_success_sound_smtp_refuted :
 Proof. exact smtp_success_sound_3xx_refuted. Qed.
 Print Assumptions C11_success_sound_smtp_refuted.
 
-(* what holds for every script: no 4xx/5xx, malformed reply, disconnect or stall at MAIL, this RCPT,
-   DATA or the end-of-data reply that decides for this recipient *)
+(* what holds for every script, in the client's own terms (Reply.is_error) *)
 Theorem C11_success_sound_smtp_is_error : forall sc cfg msgs m i,
   smtp_final sc cfg msgs m i = FDelivered ->
-  nonerr sc (Mail m) /\ nonerr sc (Data m) /\ nonerr sc (Rcpt m (N.of_nat i)) /\
-  ((c_lmtp cfg = true -> reply sc (Rcpt m (N.of_nat i)) = R2) -> nonerr sc (Eod m (eodix cfg (N.of_nat i)))).
+  exists msg, msg_at msgs m = Some msg /\
+    nonerr sc (Mail m) /\ nonerr sc (Data m) /\
+    if c_lmtp cfg
+    then (exists j, own msg i j /\ reply sc (Rcpt m (N.of_nat j)) = R2 /\ nonerr sc (Eod m (N.of_nat j))) \/
+         (forall j, own msg i j -> reply sc (Rcpt m (N.of_nat j)) = R3)
+    else (forall j, own msg i j -> nonerr sc (Rcpt m (N.of_nat j))) /\ nonerr sc (Eod m 0).
 Proof. exact smtp_success_sound_gen. Qed.
 Print Assumptions C11_success_sound_smtp_is_error.
 
@@ -48,11 +85,12 @@ Theorem C11_classification_smtp : forall sc cfg msgs m i,
 Proof. exact smtp_classification. Qed.
 Print Assumptions C11_classification_smtp.
 
+(* "if" directions: an address all of whose RCPTs were rejected (or MAIL / DATA rejected) is reported
+   with the class of the rejection when the script holds no cause of the other class *)
 Theorem C11_classification_smtp_5xx : forall sc cfg msgs m msg i,
   msg_at msgs m = Some msg -> (i < length (m_rcpts msg))%nat ->
   ~ TransCause sc cfg m ->
-  (reply sc (Rcpt m (N.of_nat i)) = R5 \/ reply sc (Rcpt m (N.of_nat i)) = R500 \/
-   reply sc (Mail m) = R5 \/ reply sc (Mail m) = R500 \/ reply sc (Data m) = R5 \/ reply sc (Data m) = R500) ->
+  ((forall j, own msg i j -> rcpt_err sc (Rcpt m (N.of_nat j))) \/ rcpt_err sc (Mail m) \/ rcpt_err sc (Data m)) ->
   smtp_final sc cfg msgs m i <> FQueued ->
   smtp_final sc cfg msgs m i = FPermanent.
 Proof. exact smtp_5xx_permanent. Qed.
@@ -61,11 +99,18 @@ Print Assumptions C11_classification_smtp_5xx.
 Theorem C11_classification_smtp_4xx : forall sc cfg msgs m msg i,
   msg_at msgs m = Some msg -> (i < length (m_rcpts msg))%nat ->
   ~ PermCause sc cfg msgs m ->
-  (reply sc (Rcpt m (N.of_nat i)) = R4 \/ reply sc (Mail m) = R4 \/ reply sc (Data m) = R4) ->
+  ((forall j, own msg i j -> rcpt_err sc (Rcpt m (N.of_nat j))) \/ rcpt_err sc (Mail m) \/ rcpt_err sc (Data m)) ->
   smtp_final sc cfg msgs m i <> FQueued ->
   smtp_final sc cfg msgs m i = FTransient.
 Proof. exact smtp_4xx_transient. Qed.
 Print Assumptions C11_classification_smtp_4xx.
+
+Theorem C11_rejected_not_delivered : forall sc cfg msgs m msg i,
+  msg_at msgs m = Some msg ->
+  ((forall j, own msg i j -> rcpt_err sc (Rcpt m (N.of_nat j))) \/ rcpt_err sc (Mail m) \/ rcpt_err sc (Data m)) ->
+  smtp_final sc cfg msgs m i <> FDelivered.
+Proof. exact smtp_rejected_not_delivered. Qed.
+Print Assumptions C11_rejected_not_delivered.
 
 (* the attempt ends, for every recipient of every request, in a result or a relay error (or the
    request is back on the pool queue): never a foreign exception, never a hang, never a missing
